@@ -31,6 +31,16 @@ func (e StdEng) argmaxDenseTensor(t DenseTensor, axis int) (retVal *Dense, err e
 			if index = e.E.ArgmaxFlatMasked(typ, dataA, mt.Mask()); index == -1 {
 				return nil, errors.Errorf("t is not supported - %T of %v", t, t.Dtype())
 			}
+		} else if t.RequiresIterator() || t.DataOrder().IsColMajor() {
+			// the raw data is not the row-major listing of the elements: visit them with the iterator,
+			// as one run of all the elements
+			var indices []int
+			if indices, err = e.E.ArgmaxIter(typ, dataA, IteratorFromDense(t), t.Shape().TotalSize()); err != nil {
+				return nil, err
+			}
+			if len(indices) > 0 {
+				index = indices[0]
+			}
 		} else {
 			if index = e.E.ArgmaxFlat(typ, dataA); index == -1 {
 				return nil, errors.Errorf("t is not supported -  %T of %v", t, t.Dtype())
@@ -117,6 +127,16 @@ func (e StdEng) argminDenseTensor(t DenseTensor, axis int) (retVal *Dense, err e
 		if mt, ok := t.(MaskedTensor); ok && mt.IsMasked() {
 			if index = e.E.ArgminFlatMasked(typ, dataA, mt.Mask()); index == -1 {
 				return nil, errors.Errorf("t is not supported - %T of %v", t, t.Dtype())
+			}
+		} else if t.RequiresIterator() || t.DataOrder().IsColMajor() {
+			// the raw data is not the row-major listing of the elements: visit them with the iterator,
+			// as one run of all the elements
+			var indices []int
+			if indices, err = e.E.ArgminIter(typ, dataA, IteratorFromDense(t), t.Shape().TotalSize()); err != nil {
+				return nil, err
+			}
+			if len(indices) > 0 {
+				index = indices[0]
 			}
 		} else {
 			if index = e.E.ArgminFlat(typ, dataA); index == -1 {
